@@ -253,6 +253,8 @@ def _store_params(fn):
 
 
 def store_rules(ctx, facts):
+    ctx.rule("STORE-SHIFT", "in the insertion of update_with_maxtracker a stored value is moved one cell up only under `new value < that stored "
+                            "value`: the block of a position stays sorted and its last cell is its l-th smallest value")
     fid = OMS + "update_with_maxtracker"
     fn = facts.fn(fid)
     t = tree_of(fn)
@@ -276,6 +278,18 @@ def store_rules(ctx, facts):
             m2 = re.match(r"^self\.%s\[(.*)\]$" % other, mr)
             if m1 and m2 and m1.group(1) == m2.group(1):
                 ok = True       # shift: both arrays move the same element
+                # … and the element moved up is one the new value is smaller than: the shift is guarded by `value < values[source]`
+                # (comparing with another cell puts the new value one cell off, the block is then no longer sorted and its last cell
+                # is not the l-th smallest value)
+                if f == "values":
+                    src_cell = "self.values[%s]" % m1.group(1)
+                    cs_ = nf.control_facts(t, w)
+                    if nf.has_cmp(cs_, P_VAL, ("<",), src_cell) is None:
+                        ctx.violation("STORE-SHIFT", fid, "shift not guarded by the moved cell", hirq.loc(w),
+                                      "`%s` moves %s up without `%s < %s` controlling it (conditions: %s): the insertion point is off and the block is no longer ordered"
+                                      % (nf.nf(w)[:60], src_cell, P_VAL, src_cell, cs_[:2]))
+                    else:
+                        ctx.ok("STORE-SHIFT", fid, "%s moved up only while %s < it" % (src_cell, P_VAL), hirq.loc(w))
             elif not m1 and not m2:
                 vals = {f: r, other: mr}
                 ok = vals["values"] == P_VAL and vals["indices"] == P_IDX
